@@ -324,3 +324,138 @@ REG.contract(
     ensures={"accepted_fill_is_collected_with_its_name_and_aliases_and_renders_nothing": _fn_post,
              "accepted_only_when_well_formed": lambda c: _z3.And(_z3.Not(_fn_syntax_error(c)), _z3.Not(_fn_runtime_error(c)))},
 )
+
+
+# ================================================================================================ DynamicComponent (pass-through)
+# From the property: rendering through the dynamic component with `is=` naming a component gives the same result as the plain tag.
+# Proved here: the dynamic component hands EXACTLY its own positional arguments, its keyword arguments minus `is`, its slots, its
+# render type / render_dependencies setting, its registered name, outer context and registry to the component named by `is`, and
+# outputs what that component renders.
+DYN = "django_components.components.dynamic"
+DYNOBJ = Obj("DynamicComponentInstance")
+KWARGS_D = Dict(Str, Any_)
+ARGS_D = Seq(Any_)
+CLSV = Obj("ResolvedComponentClass")
+_I = _z3.IntSort()
+
+
+def _resolve_stub(run, obj, args, kwargs, node):
+    from pyvc.interp import ExcVal, PyRaise
+    if run.choose(2, None) == 1:
+        raise PyRaise(ExcVal("NotRegistered", [], site="_resolve_component"))
+    run.ghost["resolved_from"] = run.coerce(args[0], _TAny)
+    return Val(CLSV, ops.uf("resolved_component_class", _PV, CLSV.sort())(run.coerce(args[0], _TAny).t))
+
+
+REG.stub(("method", "DynamicComponentInstance", "_resolve_component"), _resolve_stub)
+REG.stub(("getattr", "DynamicComponentInstance", "name"), lambda run, obj, node: Val(TStr, _z3.FreshConst(_S, "dyn_name")))
+
+
+def _dyn_gcd_post(c):
+    res = c["result"]
+    if not (isinstance(res, Conc) and isinstance(res.obj, tuple) and res.obj[0] == "dictlit"):
+        return _z3.BoolVal(False)
+    items = {(_z3.simplify(k.t).as_string() if _z3.is_string_value(_z3.simplify(k.t)) else None): v for k, v, _n in res.obj[1]}
+    if set(items) != {"comp_class", "args", "kwargs"}:
+        return _z3.BoolVal(False)
+    kw0 = c.old("kwargs").t
+    kw1 = c.run.coerce(items["kwargs"], KWARGS_D).t
+    k = _z3.Const("bv_k", _S)
+    isk = _z3.StringVal("is")
+    is_val = _z3.Select(KWARGS_D.val(kw0), isk)
+    return _z3.And(
+        c.run.coerce(items["args"], ARGS_D).t == c.old("args").t,
+        _z3.ForAll([k], _z3.And(_z3.Select(KWARGS_D.has(kw1), k) == _z3.And(k != isk, _z3.Select(KWARGS_D.has(kw0), k)),
+                                _z3.Implies(_z3.And(k != isk, _z3.Select(KWARGS_D.has(kw0), k)), _z3.Select(KWARGS_D.val(kw1), k) == _z3.Select(KWARGS_D.val(kw0), k)))),
+        c.run.coerce(items["comp_class"], CLSV).t == ops.uf("resolved_component_class", _PV, CLSV.sort())(is_val))
+
+
+def _is_missing(c):
+    kw0 = c.old("kwargs").t
+    v = _z3.Select(KWARGS_D.val(kw0), _z3.StringVal("is"))
+    from pyvc import ops as _ops
+    return _z3.Or(_z3.Not(_z3.Select(KWARGS_D.has(kw0), _z3.StringVal("is"))), _z3.Not(_ops.truth(c.run, Val(_TAny, v))))
+
+
+REG.contract(
+    f"{DYN}:DynamicComponent.get_context_data", prop=P, types={"args": ARGS_D, "registry": Any_, "kwargs": KWARGS_D}, self_type=DYNOBJ,
+    modifies=[], raises={"TypeError": _is_missing, "NotRegistered": None},
+    ensures={"arguments_minus_is_handed_through_and_class_resolved_from_is": _dyn_gcd_post,
+             "accepted_only_with_is": lambda c: _z3.Not(_is_missing(c))},
+)
+
+
+from contracts.stubs_django import lookup as _lookup, visible as _visible, dicts_of as _dicts_of  # noqa: E402
+
+
+def _attr(name, sort=None):
+    return lambda run, obj, node: Val(_TAny, ops.uf("dynamic_self_" + name, DYNOBJ.sort(), _PV)(obj.t))
+
+
+for _a in ("registered_name", "outer_context", "registry"):
+    REG.stub(("getattr", "DynamicComponentInstance", _a), _attr(_a))
+REG.stub(("getattr", "DynamicComponentInstance", "input"), lambda run, obj, node: Conc(("obj_kind", "dyn_input", obj)))
+for _a in ("context", "slots", "type", "render_dependencies"):
+    REG.stub(("getattr", "conc:obj_kind:dyn_input", _a), (lambda a: lambda run, obj, node: Val(_TAny, ops.uf("dynamic_input_" + a, DYNOBJ.sort(), _PV)(obj.obj[2].t)))(_a))
+
+
+def _inner_construct(run, args, kwargs, node):
+    for k in ("registered_name", "outer_context", "registry"):
+        run.ghost["inner_" + k] = kwargs[k]
+    run.ghost["inner_class"] = run.call_frame.lookup("comp_class")
+    return Conc(("obj_kind", "inner_component"))
+
+
+def _inner_render(run, obj, args, kwargs, node):
+    from pyvc.interp import ExcVal, PyRaise
+    for k in ("context", "args", "kwargs", "slots", "escape_slots_content", "type", "render_dependencies"):
+        run.ghost["inner_render_" + k] = kwargs[k]
+    if run.choose(2, None) == 1:
+        raise PyRaise(ExcVal("Any", [], site="inner component render (user code)"))
+    out = Val(TStr, _z3.FreshConst(_S, "inner_output"))
+    run.ghost["inner_output"] = out
+    return out
+
+
+REG.stub(("method", "conc:obj_kind:inner_component", "render"), _inner_render)
+
+
+def _orb_post(c):
+    s = c.old("self").t
+    g = c.ghost
+    if "inner_output" not in g:
+        return _z3.BoolVal(False)
+    D0 = _z3.Select(c.field(CTX, "dicts", True), c.old("context").t)
+    from contracts.stubs_django import ctx_axioms as _ax, ctx_idx as _idx, layer_val as _lv
+    _ax(c.run, D0)
+    look = lambda key: _lv(D0, _idx(D0, _z3.StringVal(key)), _z3.StringVal(key))
+    gv = lambda name: c.run.coerce(g[name], _TAny).t
+    selfattr = lambda a: ops.uf("dynamic_self_" + a, DYNOBJ.sort(), _PV)(s)
+    inp = lambda a: ops.uf("dynamic_input_" + a, DYNOBJ.sort(), _PV)(s)
+    D1 = _z3.Select(c.field(CTX, "dicts"), c.old("context").t)
+    _ax(c.run, D1)
+    out_key = _z3.StringVal("output")
+    return _z3.And(
+        gv("inner_class") == look("comp_class"), gv("inner_render_args") == look("args"), gv("inner_render_kwargs") == look("kwargs"),
+        gv("inner_registered_name") == selfattr("registered_name"), gv("inner_outer_context") == selfattr("outer_context"), gv("inner_registry") == selfattr("registry"),
+        gv("inner_render_context") == inp("context"), gv("inner_render_slots") == inp("slots"), gv("inner_render_type") == inp("type"),
+        gv("inner_render_render_dependencies") == inp("render_dependencies"),
+        _z3.Not(c.run.truth(g["inner_render_escape_slots_content"])),
+        _idx(D1, out_key) >= 0, _lv(D1, _idx(D1, out_key), out_key) == _PV.StrV(g["inner_output"].t),
+        c["result"].t == c.old("context").t)
+
+
+def _orb_requires(c):
+    D0 = _z3.Select(c.field(CTX, "dicts"), c["context"].t)
+    from contracts.stubs_django import ctx_axioms as _ax, ctx_idx as _idx
+    _ax(c.run, D0)
+    # get_context_data's result is in the Context (it is what _render_impl pushed): the three keys are visible
+    return _z3.And(c["context"].t > 0, _z3.Length(D0) >= 1, *[_idx(D0, _z3.StringVal(k)) >= 0 for k in ("comp_class", "args", "kwargs")])
+
+
+REG.contract(
+    f"{DYN}:DynamicComponent.on_render_before", prop=P, types={"context": Ref(CTX), "template": Obj("Template")}, result=Ref(CTX), self_type=DYNOBJ,
+    calls={"comp_class": _inner_construct},
+    requires=[_orb_requires], modifies=[f"{CTX}.dicts"], raises={"Any": None},
+    ensures={"inner_component_gets_exactly_the_dynamic_components_inputs_and_its_output_is_the_output": _orb_post},
+)
